@@ -194,6 +194,16 @@ Theorem C02_locks_accepted_covered_partial : forall sc p vars s extra o r x,
 Proof. exact scripts_accepted_covered. Qed.
 Print Assumptions C02_locks_accepted_covered_partial.
 
+(* [in_fragment] weakened to [norm_script] (ratio literals in lowest terms): a script without statements compiles to
+   empty code, which the machine refuses (Panic PNoInstr), so it never reaches [Done] *)
+Theorem C02_locks_accepted_covered_norm : forall sc p vars s extra o r x,
+  compile sc = Some p -> norm_script sc = true -> (forall vs, vars = Some vs -> vars_typed (p_res p) vs) -> parse_typed s ->
+  no_overdraft sc = true ->
+  run_program p vars s extra = Done o -> ro_result o = Done r ->
+  EM.covers (script_view s x (proj x (res_posts r))) false (proj x (res_posts r)) = true.
+Proof. exact scripts_accepted_covered_norm. Qed.
+Print Assumptions C02_locks_accepted_covered_norm.
+
 (* the heart, usable with any zero-grant floor: C01's [floor_ok] read asset by asset is the engine's [covers] *)
 Theorem C02_locks_floor_is_covers : forall g x ps b0 v, (forall a s, g a s = Some 0) -> C01Spec.floor_ok g b0 ps ->
   (forall q, In q ps -> p_asset q = x -> p_src q <> world -> EM.view_get v (p_src q) = b0 (p_src q) x) ->
@@ -374,3 +384,109 @@ Example C02_locks_funding_variable_panics :
   compile_and_run fv_script (Some [(1%N, VFunding {| f_asset := 0%N; f_parts := [(9%N, 50)] |})]) (lk_store 100 7 30 5) []
   = Done {| ro_involved := [1%N; 2%N]; ro_sources := [Some 1%N]; ro_result := Panic PPopType |}.
 Proof. vm_compute. reflexivity. Qed.
+
+(* ================================================================================================================ *)
+(* evidence for the two statements left open (NOT a claim: a computed search for a counterexample, none found)       *)
+(* ================================================================================================================ *)
+(* [C02_locks_sources_cover_debits_full_statement] and [C02_locks_accepted_covered_full_statement] quantify over ill-typed
+   inputs. Probe family: 37 statements covering every place where the compiler pushes a variable or takes its address
+   (print, metadata, save, source account / overdraft / cap, amount, asset, allotment portion, destination, cap of a
+   destination), the variable holding each of 15 values (three fundings, and values of every other type), alone and
+   between two ordinary sends: 1110 compiled scripts run on a store where the smuggled account 9 is rich. *)
+(* accounts: alice 1, bob 2, carol 3, nine 9; asset USD 0, EUR 1 *)
+Definition F9 : value := VFunding {| f_asset := 0%N; f_parts := [(9%N, 50)] |}.
+Definition usd (n : Z) : expr := ELitMonetary (ELitAsset 0%N) n.
+Definition plain_send : stmt := StSend (SendMon (usd 5)) (VSrc (SAccount (ELitAccount 1%N) OvNone)) (DAccount (ELitAccount 2%N)).
+Definition vd (t : vtype) : vardecl := {| vd_type := t; vd_name := 7%N; vd_orig := None |}.
+Definition V : expr := EVar 7%N.
+Definition half : aportion := APConst (Some (1, 2%positive)).
+
+(* every place where the compiler pushes (or takes the address of) a variable *)
+Definition contexts : list (vtype * stmt) :=
+  [ (TAccount, StPrint V); (TAsset, StPrint V); (TNumber, StPrint V); (TString, StPrint V); (TMonetary, StPrint V); (TPortion, StPrint V);
+    (TNumber, StPrint (EAddSub true V (ELitNumber 1))); (TMonetary, StPrint (EAddSub false V (usd 1)));
+    (TMonetary, StTxMeta 5%N V); (TAccount, StTxMeta 5%N V); (TString, StAccMeta (ELitAccount 1%N) 5%N V); (TAccount, StAccMeta V 5%N (ELitNumber 1));
+    (TMonetary, StSave (SendMon V) (ELitAccount 1%N)); (TAsset, StSave (SendAll V) (ELitAccount 1%N)); (TAccount, StSave (SendMon (usd 1)) V);
+    (TAsset, StSave (SendMon (ELitMonetary V 1)) (ELitAccount 1%N));
+    (TAccount, StSend (SendMon (usd 10)) (VSrc (SAccount V OvNone)) (DAccount (ELitAccount 2%N)));
+    (TAccount, StSend (SendMon (usd 10)) (VSrc (SAccount V OvUnbounded)) (DAccount (ELitAccount 2%N)));
+    (TMonetary, StSend (SendMon (usd 10)) (VSrc (SAccount (ELitAccount 1%N) (OvSpecific V))) (DAccount (ELitAccount 2%N)));
+    (TAccount, StSend (SendAll (ELitAsset 0%N)) (VSrc (SAccount V OvNone)) (DAccount (ELitAccount 2%N)));
+    (TMonetary, StSend (SendMon V) (VSrc (SAccount (ELitAccount 1%N) OvNone)) (DAccount (ELitAccount 2%N)));
+    (TMonetary, StSend (SendMon V) (VSrc (SAccount (ELitAccount 1%N) OvUnbounded)) (DAccount (ELitAccount 2%N)));
+    (TMonetary, StSend (SendMon (EAddSub true V (usd 1))) (VSrc (SAccount (ELitAccount 1%N) OvNone)) (DAccount (ELitAccount 2%N)));
+    (TMonetary, StSend (SendMon (EAddSub true (usd 1) V)) (VSrc (SAccount (ELitAccount 1%N) OvNone)) (DAccount (ELitAccount 2%N)));
+    (TAsset, StSend (SendMon (ELitMonetary V 10)) (VSrc (SAccount (ELitAccount 1%N) OvNone)) (DAccount (ELitAccount 2%N)));
+    (TAsset, StSend (SendAll V) (VSrc (SAccount (ELitAccount 1%N) OvNone)) (DAccount (ELitAccount 2%N)));
+    (TMonetary, StSend (SendMon (usd 10)) (VSrc (SMaxed V (SAccount (ELitAccount 1%N) OvNone))) (DAccount (ELitAccount 2%N)));
+    (TAccount, StSend (SendMon (usd 10)) (VSrc (SInOrder [SAccount (ELitAccount 1%N) OvNone; SAccount V OvNone])) (DAccount (ELitAccount 2%N)));
+    (TAccount, StSend (SendMon (usd 10)) (VSrc (SInOrder [SMaxed (usd 3) (SAccount V OvNone); SAccount (ELitAccount 1%N) OvNone])) (DAccount (ELitAccount 2%N)));
+    (TMonetary, StSend (SendMon V) (VSrcAllot [(half, SAccount (ELitAccount 1%N) OvNone); (APRemaining, SAccount (ELitAccount 3%N) OvNone)]) (DAccount (ELitAccount 2%N)));
+    (TPortion, StSend (SendMon (usd 10)) (VSrcAllot [(APVar 7%N, SAccount (ELitAccount 1%N) OvNone); (APRemaining, SAccount (ELitAccount 3%N) OvNone)]) (DAccount (ELitAccount 2%N)));
+    (TAccount, StSend (SendMon (usd 10)) (VSrcAllot [(half, SAccount V OvNone); (APRemaining, SAccount (ELitAccount 3%N) OvNone)]) (DAccount (ELitAccount 2%N)));
+    (TAccount, StSend (SendMon (usd 10)) (VSrc (SAccount (ELitAccount 1%N) OvNone)) (DAccount V));
+    (TMonetary, StSend (SendMon (usd 10)) (VSrc (SAccount (ELitAccount 1%N) OvNone)) (DInOrder [(V, KTo (DAccount (ELitAccount 2%N)))] (KTo (DAccount (ELitAccount 3%N)))));
+    (TAccount, StSend (SendMon (usd 10)) (VSrc (SAccount (ELitAccount 1%N) OvNone)) (DInOrder [(usd 4, KTo (DAccount V))] Kept));
+    (TPortion, StSend (SendMon (usd 10)) (VSrc (SAccount (ELitAccount 1%N) OvNone)) (DAllot [(APVar 7%N, KTo (DAccount (ELitAccount 2%N))); (APRemaining, KTo (DAccount (ELitAccount 3%N)))]));
+    (TAccount, StSend (SendMon (usd 10)) (VSrc (SAccount (ELitAccount 1%N) OvNone)) (DAllot [(half, KTo (DAccount V)); (APRemaining, Kept)])) ].
+
+(* ill-typed values to put in the variable *)
+Definition bad_values : list value :=
+  [ F9; VFunding {| f_asset := 0%N; f_parts := [(1%N, 50)] |}; VFunding {| f_asset := 0%N; f_parts := [] |};
+    VAccount 9%N; VAccount 1%N; VAsset 0%N; VAsset 1%N; VNumber 3; VString 4%N; VMonetary 0%N 7; VMonetary 1%N 7; VMonetary 0%N (-7);
+    VPortion (PSpecific (1, 3%positive)); VPortion PRemaining; VAllotment [(1, 2%positive); (1, 2%positive)] ].
+
+Definition probe_store : store :=
+  {| st_bal := [(1%N, 0%N, 100); (2%N, 0%N, 7); (3%N, 0%N, 30); (9%N, 0%N, 1000); (1%N, 1%N, 40)]; st_meta := []; st_parse := [] |}.
+
+Definition probes : list (script * list (N * value)) :=
+  flat_map (fun c => flat_map (fun v =>
+     [ ({| s_vars := [vd (fst c)]; s_stmts := [snd c] |}, [(7%N, v)]);
+       ({| s_vars := [vd (fst c)]; s_stmts := [plain_send; snd c; plain_send] |}, [(7%N, v)]) ]) bad_values) contexts.
+
+Definition all_assets (ps : list posting) : list asset := map p_asset ps.
+Definition probe_ok (pr : script * list (N * value)) : bool :=
+  match compile_and_run (fst pr) (Some (snd pr)) probe_store [] with
+  | Done o =>
+      match ro_result o with
+      | Done r =>
+          forallb (fun q => existsb (oacc_eqb (Some (p_src q))) (ro_sources o)) (res_posts r) &&
+          forallb (fun q => existsb (N.eqb (p_src q)) (ro_involved o) && existsb (N.eqb (p_dst q)) (ro_involved o)) (res_posts r) &&
+          (negb (no_overdraft (fst pr)) ||
+           forallb (fun x => EM.covers (script_view probe_store x (proj x (res_posts r))) false (proj x (res_posts r))) (all_assets (res_posts r)))
+      | _ => true
+      end
+  | _ => true
+  end.
+Definition count_done (l : list (script * list (N * value))) : nat :=
+  length (filter (fun pr => match compile_and_run (fst pr) (Some (snd pr)) probe_store [] with
+                            | Done o => match ro_result o with Done r => negb (match res_posts r with [] => true | _ => false end) | _ => false end
+                            | _ => false end) l).
+
+(* all 1110 compile; 204 runs end in [Done] with postings; in none of them is a posting's source outside [ro_sources], an
+   end outside [ro_involved], or [covers] false on some asset (for the scripts without overdraft clause) *)
+Example C02_locks_full_statements_probe_evidence :
+  length probes = 1110%nat /\ count_done probes = 204%nat /\ filter (fun pr => negb (probe_ok pr)) probes = [].
+Proof. vm_compute. auto. Qed.
+
+(* a run CAN succeed with a funding value in the resource table: OP_PRINT takes any value. So the open statement is not
+   "a funding input never reaches Done" but a dataflow fact: no pop_funding site of compiled code is fed by a pushed
+   resource. Here: vars { monetary $v }  send [USD 5] (alice -> bob); print $v; send [USD 5] (alice -> bob) *)
+Example C02_locks_printed_funding_survives :
+  exists o r, compile_and_run {| s_vars := [vd TMonetary]; s_stmts := [plain_send; StPrint V; plain_send] |}
+                (Some [(7%N, F9)]) probe_store [] = Done o /\ ro_result o = Done r /\
+    res_printed r = [F9] /\ ro_sources o = [Some 1%N] /\
+    res_posts r = [ {| p_src := 1%N; p_dst := 2%N; p_asset := 0%N; p_amount := 5 |};
+                    {| p_src := 1%N; p_dst := 2%N; p_asset := 0%N; p_amount := 5 |} ].
+Proof. eexists. eexists. split; [vm_compute; reflexivity|]. repeat split. Qed.
+
+(* type confusion that does reach the balances: `save $v from @alice` compiled for a MONETARY $v, run with $v := the asset
+   EUR, executes as `save [EUR *] from @alice` (OP_SAVE dispatches on the run-time type). It only lowers what the machine
+   may take, so no floor is endangered; the real SetVarsFromJSON rejects such a value. *)
+Example C02_locks_save_type_confusion :
+  exists o r, compile_and_run {| s_vars := [vd TMonetary]; s_stmts := [StSave (SendMon V) (ELitAccount 1%N);
+                  StSend (SendAll (ELitAsset 1%N)) (VSrc (SAccount (ELitAccount 1%N) OvNone)) (DAccount (ELitAccount 2%N))] |}
+                (Some [(7%N, VAsset 1%N)]) probe_store [] = Done o /\ ro_result o = Done r /\
+    res_posts r = [ {| p_src := 1%N; p_dst := 2%N; p_asset := 1%N; p_amount := 0 |} ] /\
+    store_balance probe_store 1%N 1%N = 40.
+Proof. eexists. eexists. split; [vm_compute; reflexivity|]. repeat split. Qed.
